@@ -19,7 +19,7 @@ TESTS = [("ptree", ["ptree_test"]), ("pcryptohash", ["pcryptohash_test"]), ("pat
 ALT_MODELS = {"patomic-sync.c": ["patomic-sync.c", "pspinlock-sync.c"], "pspinlock-sync.c": ["patomic-sync.c", "pspinlock-sync.c"],
               "patomic-sim.c": ["patomic-sim.c", "pspinlock-sim.c"], "pspinlock-sim.c": ["patomic-sim.c", "pspinlock-sim.c"], "prwlock-general.c": ["prwlock-general.c"]}
 # which of our checks are run against each seed (the property it targets first)
-EXTRA = {"C11": ["C18"], "C15": ["C18"], "C04": ["C01"], "C01": ["C03"], "C20": ["C05", "C18"], "C18": ["C20"], "C10": ["C09", "C19"], "C09": ["C19", "C10"], "C19": ["C09"], "C12": ["C14", "C13"], "C13": ["C12"], "C14": ["C12"], "C08": ["C07"], "C07": ["C08", "C06", "C20"], "C06": ["C07"]}
+EXTRA = {"C16": ["C20"], "C11": ["C18"], "C15": ["C18"], "C04": ["C01"], "C01": ["C03"], "C20": ["C05", "C18"], "C18": ["C20"], "C10": ["C09", "C19"], "C09": ["C19", "C10"], "C19": ["C09"], "C12": ["C14", "C13"], "C13": ["C12"], "C14": ["C12"], "C08": ["C07"], "C07": ["C08", "C06", "C20"], "C06": ["C07"]}
 
 
 def sh(cmd, cwd=None, timeout=1200):
